@@ -429,6 +429,21 @@ Definition weight (o : op) : N :=
   end.
 Definition weights (ops : list op) : N := fold_right (fun o a => weight o + a) 0 ops.
 
+Definition kind_of (set : bool) : kind := if set then IoSet else Io.
+
+(* is a a prefix of b *)
+Fixpoint prefixb (a b : bytes) : bool :=
+  match a, b with
+  | [], _ => true
+  | _ :: _, [] => false
+  | x :: a', y :: b' => N.eqb x y && prefixb a' b'
+  end.
+(* two user keys are independent when neither, followed by the ion separator, starts the other
+   (keys free of the separator are independent of every key free of it; "a" and "ab" are
+   independent, "a" and "a.b" are not) *)
+Definition indep2 (k k' : bytes) : Prop :=
+  prefixb (k ++ [ionsep]) k' = false /\ prefixb (k' ++ [ionsep]) k = false.
+
 Definition op_key (o : op) : list bytes :=
   match o with
   | OPut k _ | OPin k _ | OAdd k _ | OGet k | OGetFirst k | OGetLast k | OPop k | ORem k
